@@ -313,7 +313,7 @@ def sorm_model_stream(res, rng, k):
         if d < 2:
             continue
         from formmodel import latent_admissible
-        if not latent_admissible(np, kinds, p2, R):
+        if not latent_admissible(np, kinds, p2, R, dists):
             res.stat('sorm_model_correlation_not_admissible_for_these_marginals')
             continue
         mean = np.array([float(ds.mean()) for ds in dists])
